@@ -88,7 +88,7 @@ var checks = []Check{
 		Jobs: []Job{
 			{Pkg: "proc/tcp", Scenarios: []string{"C05/relay"}, Shards: 16, QuickS: 90, ThoroughS: 240},
 			{Pkg: "proc/tcp", Scenarios: []string{"C05/stack-race"}, Race: true, Shards: 1, QuickS: 120, ThoroughS: 240},
-			{Pkg: "proc/tcp", Scenarios: []string{"C05/two-connections", "C05/paced", "C05/slow-receiver"}, Shards: 8, QuickS: 60, ThoroughS: 240},
+			{Pkg: "proc/tcp", Scenarios: []string{"C05/two-connections", "C05/paced", "C05/slow-receiver", "C05/arrivals"}, Shards: 8, QuickS: 60, ThoroughS: 240},
 		},
 	},
 	{
